@@ -323,6 +323,36 @@ theorem monotone_in_distance_closest (feas : X → Bool) (closest : X → X) (al
   exact ⟨monotone_scalar _ _ _ _ hαd, fun h0 => monotone_pos _ _ _ _ h0 hαd,
     fun h0 => monotone_neg _ _ _ _ h0 hαd⟩
 
+/-! ### No history: the decorators are pure functions of what they are given at `x` -/
+
+/-- The decorated function has no memory and looks at nothing but the individual it is called on:
+two configurations (feasibility, distance, weights, closest point, evaluation function — e.g. the
+same decorator instance before and after any number of other calls, or called on individuals of
+other fitness classes) that agree AT `x` return the same fitness and the same call log.  Hence a
+sequence of calls through one decorator instance is the list of the independent single calls, and
+any dependence of the implementation on earlier calls contradicts the model. -/
+theorem decorators_stateless (delta : SV α) (alpha : α) (x : X) (a : A)
+    (feas feas' : X → Bool) (weights weights' : X → List α) (f f' : X → A → List α)
+    (dist dist' : Option (X → SV α)) (closest closest' : X → X) (dist2 dist2' : Option (X → X → SV α))
+    (hfe : feas x = feas' x) (hw : weights x = weights' x) (hf : f x a = f' x a)
+    (hd : dist.map (· x) = dist'.map (· x))
+    (hc : closest x = closest' x) (hfc : f (closest x) a = f' (closest x) a)
+    (hd2 : dist2.map (· (closest x) x) = dist2'.map (· (closest x) x)) :
+    deltaPenalty feas delta dist weights f x a = deltaPenalty feas' delta dist' weights' f' x a ∧
+    closestValidPenalty feas closest alpha dist2 weights f x a =
+      closestValidPenalty feas' closest' alpha dist2' weights' f' x a := by
+  have h1 : deltaDists dist (weights x) x = deltaDists dist' (weights' x) x := by
+    rw [← hw]
+    cases dist <;> cases dist' <;> simp_all [deltaDists]
+  have h2 : closestDists dist2 (weights x) (closest x) x =
+      closestDists dist2' (weights' x) (closest' x) x := by
+    rw [← hw, ← hc]
+    cases dist2 <;> cases dist2' <;> simp_all [closestDists]
+  constructor
+  · simp only [deltaPenalty, ← hfe, ← hw, ← hf, h1]
+  · simp only [closestValidPenalty, ← hfe, ← hc, ← hfc, ← hf]
+    rw [hc] at h2; simp only [← hw, ← hc] at h2 ⊢; simp only [h2]
+
 /-! ### Non-vacuity: concrete instances (weights of both signs and zero, scalar / vector
 constants and distances, a forwarded extra argument) -/
 
@@ -351,6 +381,11 @@ example : closestValidPenalty (fun _ => false) (· + 100) (1 : Int)
 -- the size guard
 example : closestValidPenalty (fun _ => false) (· + 100) (1 : Int) none
     (fun _ => [1, -1]) (fun (x : Nat) (_ : Nat) => [x]) 7 5 = ⟨none, [(107, 5)]⟩ := by decide
+-- `decorators_stateless`: two configurations that differ away from x = 7 but agree there
+example : deltaPenalty (fun y => decide (y < 5)) (.scalar (10 : Int)) (some fun (y : Nat) => .scalar (y : Int))
+      (fun y => if y = 7 then [1, -1] else [-1]) (fun (y : Nat) (_ : Nat) => [y, y]) 7 5 =
+    deltaPenalty (fun _ => false) (.scalar (10 : Int)) (some fun _ => .scalar 7)
+      (fun _ => [1, -1]) (fun (_ : Nat) (_ : Nat) => [7, 7]) 7 5 := by decide
 -- hypotheses of `never_better_*` / `delta_length`: non-negative distances, well-sized vectors
 example : (∀ v ∈ (SV.seq [(1 : Int), 2, 3]).vals, 0 ≤ v) ∧ (∀ v ∈ (SV.scalar (0 : Int)).vals, 0 ≤ v) := by
   decide
